@@ -251,6 +251,8 @@ type boundsFn struct {
 	visits map[*ssa.BasicBlock]int
 	heads  map[*ssa.BasicBlock]bool
 	summ   func(*ssa.Function) *boundsSummary
+	summC  func(callee *ssa.Function, seed [][3]int64, key string) *boundsSummary // context-sensitive: analysed with the caller's facts about the arguments
+	seed   [][3]int64                                                             // entry constraints (i, j, c): ent_i - ent_j <= c over [zero, params...]
 	glen   func(*ssa.Global) (int64, bool)
 }
 
@@ -595,77 +597,173 @@ func isMemBarrier(in ssa.Instruction) bool {
 				return false
 			}
 		}
+		// A-VISITOR: inside js.Walk and its helpers, descending (Walk, helpers) and the visitor callbacks do not
+		// resize the lists of the tree being walked (the property quantifies over visitors that descend or stop)
+		if isWalkFamily(x.Parent()) {
+			if g := x.Call.StaticCallee(); g != nil && isWalkFamily(g) {
+				return false
+			}
+			if x.Call.IsInvoke() && (x.Call.Method.Name() == "Enter" || x.Call.Method.Name() == "Exit") {
+				return false
+			}
+		}
 		return true
 	}
 	return false
 }
 
-// findChainLoads: a heap load that repeats an earlier load of the same location, with no store or call
-// in between on the (single-predecessor) path that connects them, yields the same value.
+func isWalkFamily(fn *ssa.Function) bool {
+	if fn == nil || fn.Signature.Recv() != nil || fnPkg(fn) == nil || core.RelPkg(fnPkg(fn)) != "js" {
+		return false
+	}
+	return fn.Name() == "Walk" || callsWalk(fn)
+}
+
+// findChainLoads: available-loads analysis. A heap load that repeats an earlier load of the same location yields
+// the same value if no store or call (memory barrier) lies on any path between them: a forward must-analysis
+// (intersection at joins, so loop-invariant loads are recognised) whose facts map a structural location key to
+// the load that represents it. Keys name nested loads by their representative, so equal keys mean equal addresses.
 func (b *boundsFn) findChainLoads() {
-	for _, blk := range b.fn.DomPreorder() {
-		for i, in := range blk.Instrs {
-			l2, ok := in.(*ssa.UnOp)
-			if !ok || l2.Op != token.MUL || b.pure[l2] {
-				continue
+	fn := b.fn
+	if len(fn.Blocks) == 0 {
+		return
+	}
+	rep := map[ssa.Value]ssa.Value{} // result of the previous iteration (used to name nested loads)
+	var key func(v ssa.Value, depth int) string
+	key = func(v ssa.Value, depth int) string {
+		if depth > 8 {
+			return fmt.Sprintf("%p", v)
+		}
+		switch x := v.(type) {
+		case *ssa.Parameter:
+			return "p:" + x.Name()
+		case *ssa.Const:
+			if x.Value != nil {
+				return "c:" + x.Value.ExactString()
 			}
-			if _, done := b.rep[l2]; done {
-				continue
+			return "c:nil"
+		case *ssa.FieldAddr:
+			return key(x.X, depth+1) + fmt.Sprintf(".%d", x.Field)
+		case *ssa.Field:
+			return key(x.X, depth+1) + fmt.Sprintf(".f%d", x.Field)
+		case *ssa.IndexAddr:
+			return key(x.X, depth+1) + "[" + key(x.Index, depth+1) + "]"
+		case *ssa.UnOp:
+			if x.Op == token.MUL {
+				if r, ok := b.rep[x]; ok {
+					return fmt.Sprintf("L%p", r)
+				}
+				if r, ok := rep[x]; ok {
+					return fmt.Sprintf("L%p", r)
+				}
+				return fmt.Sprintf("L%p", x)
 			}
-			if !isSliceLike(l2.Type()) && !isAnyInt(l2.Type()) {
-				continue
-			}
-			k2 := loadKey(l2, nil, 0)
-			// scan backwards
-			scanned := map[ssa.Instruction]bool{}
-			var cand *ssa.UnOp
-			cur, pos := blk, i-1
-			steps := 0
-		scan:
-			for steps < 400 {
-				for ; pos >= 0; pos-- {
-					steps++
-					ins := cur.Instrs[pos]
+		}
+		return fmt.Sprintf("%p", v)
+	}
+	loadKey2 := func(l *ssa.UnOp) string { return "*(" + key(l.X, 0) + ")" }
+	type avail map[string]*ssa.UnOp
+	for iter := 0; iter < 6; iter++ {
+		in := map[*ssa.BasicBlock]avail{}
+		out := map[*ssa.BasicBlock]avail{}
+		top := map[*ssa.BasicBlock]bool{} // not yet computed: neutral element of the intersection
+		for _, blk := range fn.Blocks {
+			top[blk] = true
+		}
+		newRep := map[ssa.Value]ssa.Value{}
+		changed := true
+		for rounds := 0; changed && rounds < 50; rounds++ {
+			changed = false
+			for _, blk := range fn.Blocks {
+				var cur avail
+				if blk == fn.Blocks[0] {
+					cur = avail{}
+				} else {
+					first := true
+					for _, p := range blk.Preds {
+						if top[p] {
+							continue
+						}
+						if first {
+							cur = avail{}
+							for k, v := range out[p] {
+								cur[k] = v
+							}
+							first = false
+						} else {
+							for k, v := range cur {
+								if out[p][k] != v {
+									delete(cur, k)
+								}
+							}
+						}
+					}
+					if first {
+						continue // no computed predecessor yet
+					}
+				}
+				in[blk] = cur
+				o := avail{}
+				for k, v := range cur {
+					o[k] = v
+				}
+				for _, ins := range blk.Instrs {
 					if isMemBarrier(ins) {
-						break scan
+						o = avail{}
+						continue
 					}
-					scanned[ins] = true
-					if l1, isL := ins.(*ssa.UnOp); isL && l1.Op == token.MUL && cand == nil && types.Identical(l1.Type(), l2.Type()) && loadKey(l1, nil, 0) == k2 {
-						cand = l1
-					}
-				}
-				if len(cur.Preds) != 1 || cur.Preds[0] == cur {
-					break
-				}
-				cur = cur.Preds[0]
-				pos = len(cur.Instrs) - 1
-			}
-			if cand == nil {
-				continue
-			}
-			var nested []*ssa.UnOp
-			loadKey(cand, &nested, 0)
-			ok2 := true
-			for _, n := range nested {
-				if n == cand {
-					continue
-				}
-				if !scanned[n] && !b.pure[n] {
-					if _, isRep := b.rep[n]; !isRep {
-						ok2 = false
+					if l, ok := ins.(*ssa.UnOp); ok && l.Op == token.MUL && !b.pure[l] {
+						if _, isPure := b.rep[l]; isPure {
+							continue
+						}
+						if !isSliceLike(l.Type()) && !isAnyInt(l.Type()) {
+							continue
+						}
+						k := loadKey2(l)
+						if r, has := o[k]; has && r != l && types.Identical(r.Type(), l.Type()) {
+							newRep[l] = r
+						} else {
+							delete(newRep, l)
+							o[k] = l
+						}
 					}
 				}
+				if top[blk] || !sameAvail(out[blk], o) {
+					out[blk] = o
+					top[blk] = false
+					changed = true
+				}
 			}
-			if !ok2 {
-				continue
+		}
+		same := len(newRep) == len(rep)
+		for k, v := range newRep {
+			if rep[k] != v {
+				same = false
 			}
-			r := ssa.Value(cand)
-			if rr, has := b.rep[cand]; has {
-				r = rr
-			}
-			b.rep[l2] = r
+		}
+		rep = newRep
+		if same {
+			break
 		}
 	}
+	for l, r := range rep {
+		if rr, has := b.rep[r]; has {
+			r = rr
+		}
+		b.rep[l] = r
+	}
+}
+
+func sameAvail(a, c map[string]*ssa.UnOp) bool {
+	if len(a) != len(c) {
+		return false
+	}
+	for k, v := range a {
+		if c[k] != v {
+			return false
+		}
+	}
+	return true
 }
 
 func (b *boundsFn) collectVars() {
@@ -1353,6 +1451,14 @@ func (b *boundsFn) transferCall(d *dbm, c *ssa.Call) {
 			}
 			return
 		}
+		if b.summC != nil && callee.Pkg != nil && core.InModule(callee.Pkg.Pkg) {
+			if seed, key := b.callSeed(d, c); seed != nil {
+				if s := b.summC(callee, seed, key); s != nil && s.ok {
+					b.applySummary(d, c, s)
+					return
+				}
+			}
+		}
 		if b.summ != nil && callee.Pkg != nil && core.InModule(callee.Pkg.Pkg) {
 			if s := b.summ(callee); s != nil && s.ok {
 				b.applySummary(d, c, s)
@@ -1411,6 +1517,14 @@ func (b *boundsFn) extractFacts(d *dbm, x *ssa.Extract) {
 				}
 			}
 			return
+		}
+		if b.summC != nil && callee.Pkg != nil && core.InModule(callee.Pkg.Pkg) {
+			if seed, key := b.callSeed(d, t); seed != nil {
+				if s := b.summC(callee, seed, key); s != nil && s.ok {
+					b.applySummaryResult(d, t, s, x.Index, ssa.Value(x))
+					return
+				}
+			}
 		}
 		if b.summ != nil && callee.Pkg != nil && core.InModule(callee.Pkg.Pkg) {
 			if s := b.summ(callee); s != nil && s.ok {
@@ -1474,6 +1588,63 @@ func (b *boundsFn) applySummaryResult(d *dbm, c *ssa.Call, s *boundsSummary, ri 
 			}
 		}
 	}
+}
+
+// callSeed: what the caller's matrix says about the arguments of a call (pairwise differences among zero and the
+// arguments' values / lengths), as entry constraints for a context-sensitive analysis of the callee.
+func (b *boundsFn) callSeed(d *dbm, c *ssa.Call) ([][3]int64, string) {
+	type ent struct {
+		v int
+		c int64
+		k bool
+	}
+	ents := []ent{{v: 0}}
+	for _, a := range c.Call.Args {
+		vi, cc, k := b.summaryVarOfValue(a)
+		ents = append(ents, ent{vi, cc, k})
+	}
+	var seed [][3]int64
+	var sb strings.Builder
+	for i := range ents {
+		for j := range ents {
+			if i == j {
+				continue
+			}
+			a, cc := ents[i], ents[j]
+			var bound int64 = bInf
+			switch {
+			case a.k && cc.k:
+				bound = a.c - cc.c
+			case a.k && cc.v >= 0:
+				bound = badd(a.c, d.get(0, cc.v))
+			case cc.k && a.v >= 0:
+				bound = badd(d.get(a.v, 0), -cc.c)
+			case a.v >= 0 && cc.v >= 0:
+				if a.v == cc.v {
+					bound = 0
+				} else {
+					bound = d.get(a.v, cc.v)
+				}
+			case a.v == 0 && !a.k && cc.v >= 0:
+				bound = d.get(0, cc.v)
+			}
+			if bound < bInf {
+				// keep the seed small and the cache effective: only bounds in a small range matter for indices
+				if bound > 64 {
+					continue
+				}
+				if bound < -64 {
+					bound = -64
+				}
+				seed = append(seed, [3]int64{int64(i), int64(j), bound})
+				fmt.Fprintf(&sb, "%d,%d,%d;", i, j, bound)
+			}
+		}
+	}
+	if len(seed) == 0 {
+		return nil, ""
+	}
+	return seed, sb.String()
 }
 
 // refine d with the condition cond == truth
@@ -1728,6 +1899,23 @@ func (b *boundsFn) entryState() *dbm {
 	}
 	for v := range b.pure {
 		b.typeFacts(d, v)
+	}
+	// facts the caller established about the arguments
+	ent := func(i int64) (int, int64, bool) {
+		if i == 0 {
+			return 0, 0, false
+		}
+		if int(i-1) < len(b.fn.Params) {
+			return b.summaryVarOfValue(b.fn.Params[i-1])
+		}
+		return -1, 0, false
+	}
+	for _, c := range b.seed {
+		vi, _, _ := ent(c[0])
+		vj, _, _ := ent(c[1])
+		if vi >= 0 && vj >= 0 && vi != vj {
+			d.add(vi, vj, c[2])
+		}
 	}
 	return d
 }
@@ -2160,11 +2348,13 @@ func globalLens(r *core.Run) func(*ssa.Global) (int64, bool) {
 }
 
 type boundsEngine struct {
-	r     *core.Run
-	glen  func(*ssa.Global) (int64, bool)
-	done  map[*ssa.Function]*boundsFn
-	busy  map[*ssa.Function]bool
-	summs map[*ssa.Function]*boundsSummary
+	r        *core.Run
+	glen     func(*ssa.Global) (int64, bool)
+	done     map[*ssa.Function]*boundsFn
+	busy     map[*ssa.Function]bool
+	summs    map[*ssa.Function]*boundsSummary
+	ctxSumms map[string]*boundsSummary
+	ctxDepth int
 }
 
 func (e *boundsEngine) get(fn *ssa.Function) *boundsFn {
@@ -2188,10 +2378,48 @@ func (e *boundsEngine) get(fn *ssa.Function) *boundsFn {
 		e.summs[callee] = s
 		return s
 	}
+	b.summC = e.summCtx
 	b.analyse()
 	delete(e.busy, fn)
 	e.done[fn] = b
 	return b
+}
+
+// summCtx: summary of callee analysed under the given entry constraints (cached; bounded depth).
+func (e *boundsEngine) summCtx(callee *ssa.Function, seed [][3]int64, key string) *boundsSummary {
+	if len(callee.Blocks) == 0 || e.busy[callee] || e.ctxDepth > 2 {
+		return nil
+	}
+	if e.ctxSumms == nil {
+		e.ctxSumms = map[string]*boundsSummary{}
+	}
+	k := fmt.Sprintf("%p|%s", callee, key)
+	if s, ok := e.ctxSumms[k]; ok {
+		return s
+	}
+	e.ctxSumms[k] = nil
+	e.busy[callee] = true
+	e.ctxDepth++
+	cb := &boundsFn{r: e.r, fn: callee, vars: map[interface{}]int{}, glen: e.glen, seed: seed}
+	cb.summ = func(f *ssa.Function) *boundsSummary {
+		if s, ok := e.summs[f]; ok {
+			return s
+		}
+		x := e.get(f)
+		if x == nil {
+			return nil
+		}
+		s := x.summary()
+		e.summs[f] = s
+		return s
+	}
+	cb.summC = e.summCtx
+	cb.analyse()
+	e.ctxDepth--
+	delete(e.busy, callee)
+	s := cb.summary()
+	e.ctxSumms[k] = s
+	return s
 }
 
 // AST methods that index values whose non-emptiness is a value-level invariant; not in scope.
@@ -2219,8 +2447,8 @@ func astMethodScope(r *core.Run, prop string) []string {
 		}
 		name := fnLabel(fn)
 		if fn.Signature.Recv() == nil {
-			if fn.Name() == "Walk" && prop != "C05" {
-				out = append(out, name)
+			if prop != "C05" && (fn.Name() == "Walk" || callsWalk(fn)) {
+				out = append(out, name) // Walk and the helpers it is split into
 			}
 			continue
 		}
@@ -2272,6 +2500,9 @@ func runBounds(r *core.Run) {
 	r.Count("listed functions that no longer exist", missing)
 	r.Floor("index/slice obligations", nob, boundsFloor[r.Prop])
 	r.Assumption("A-INTEXACT: arithmetic on values of type int does not overflow (operands are slice lengths plus small constants)")
+	if r.Prop == "C18" || r.Prop == "C01" {
+		r.Assumption("A-VISITOR: visitor callbacks and nested Walk calls do not resize the lists of the tree being walked")
+	}
 }
 
 var boundsFloor = map[string]int{"C16": 90, "C14": 14, "C15": 12, "C01": 180, "C05": 18, "C18": 8, "C19": 15}
@@ -2346,4 +2577,18 @@ func boundsProven(prog *core.Program, fn *ssa.Function, in ssa.Instruction) bool
 		sb.res[fn] = m
 	}
 	return m[in]
+}
+
+// callsWalk: a package-level function of js that calls js.Walk (a walk helper).
+func callsWalk(fn *ssa.Function) bool {
+	for _, b := range fn.Blocks {
+		for _, in := range b.Instrs {
+			if c, ok := in.(*ssa.Call); ok {
+				if g := c.Call.StaticCallee(); g != nil && g.Name() == "Walk" && g.Signature.Recv() == nil && core.RelPkg(fnPkg(g)) == "js" {
+					return true
+				}
+			}
+		}
+	}
+	return false
 }
